@@ -289,6 +289,76 @@ func (c *Ctx) checkSanitizeBuffer(rule string) {
 		c.missing(rule, "sanitize closure / getSanitizeBuffer / putSanitizeBuffer")
 		return
 	}
+	// exclusive ownership: what getSanitizeBuffer hands out comes from a sync.Pool (which gives an object
+	// to one caller at a time), from an atomic Swap (which takes it away from everyone else in one step)
+	// or is freshly allocated - never a pointer that was merely loaded from a shared slot (two callers can
+	// load it before either clears the slot and then write into one buffer)
+	{
+		okSrc := true
+		var at ssa.Instruction
+		var src func(v ssa.Value, depth int, seen map[ssa.Value]bool) bool
+		src = func(v ssa.Value, depth int, seen map[ssa.Value]bool) bool {
+			v = stripConv(v)
+			if depth == 0 {
+				return false
+			}
+			if seen[v] {
+				return true
+			}
+			seen[v] = true
+			switch x := v.(type) {
+			case *ssa.Alloc:
+				return true
+			case *ssa.TypeAssert:
+				return src(x.X, depth-1, seen)
+			case *ssa.Extract:
+				return src(x.Tuple, depth-1, seen)
+			case *ssa.Phi:
+				for _, e := range x.Edges {
+					if !src(e, depth-1, seen) {
+						return false
+					}
+				}
+				return true
+			case *ssa.Call:
+				pkg, typ, m := recvNamed(x)
+				if pkg == "sync" && typ == "Pool" && m == "Get" {
+					return true
+				}
+				if pkg == "sync/atomic" && m == "Swap" {
+					return true
+				}
+				if g := staticCallee(x); g != nil && g.Pkg != nil && g.Pkg.Pkg.Path() == "bytes" && (g.Name() == "NewBuffer" || g.Name() == "NewBufferString") {
+					return true
+				}
+				if in, isI := v.(ssa.Instruction); isI {
+					at = in
+				}
+				return false
+			}
+			if in, isI := v.(ssa.Instruction); isI {
+				at = in
+			}
+			return false
+		}
+		for _, r := range returnsOf(get) {
+			for _, va := range resultValues(r, 0) {
+				if !src(va.Val, 8, map[ssa.Value]bool{}) {
+					okSrc = false
+					if at == nil {
+						at = va.At
+					}
+				}
+			}
+		}
+		pos := get.Pos()
+		tr := ""
+		if at != nil {
+			pos, tr = at.Pos(), c.describe(at)
+		}
+		c.check(okSrc, rule, c.fnKey(get)+":exclusive", pos, "the buffer handed out comes from the pool (or is fresh): one owner at a time",
+			"getSanitizeBuffer can hand out a buffer it did not obtain exclusively (a pointer loaded from a shared slot and cleared in a second step): two concurrent callers get the same buffer and each other's text", tr)
+	}
 	key := c.fnKey(cl)
 	var puts []*ssa.Call
 	nDeferred := 0
